@@ -43,8 +43,11 @@ def classify(q, cul, own, cown, exp, got):
     if not cul:
         return "unexplained"
     p = cul[0]
-    if [R.chars(p[k]) for k in ("host", "m", "path")] != [R.chars(q[k]) for k in ("host", "m", "path")]:
-        return "key-collision"
+    tp, tq = [R.chars(p[k]) for k in ("host", "m", "path")], [R.chars(q[k]) for k in ("host", "m", "path")]
+    if tp != tq:
+        # another request's cache entry was used: the pinned tree's defect is that the three parts are concatenated
+        # without separators; any other way of sharing an entry is a different defect
+        return "key-collision" if "".join(tp) == "".join(tq) else "foreign-cache-entry"
     if got.get("code") in (404, 405):
         return "cached-negative"
     if own is not None and cown is not None and own != cown:
@@ -78,9 +81,10 @@ def _mbt(ctx):
     # the general universe, and two focused ones (a header-conditioned entry ahead of a plain one; a filtered rule ahead of
     # the owning rule), so that every history shape the cache is sensitive to occurs often
     for k, (share, reqs, templates, shells, sfs, plans) in enumerate((
-            (0.5, "C12Reqs", "C12Templates", "C12Shells", "C12ServerFilters", "PlansC12"),
-            (0.25, "C12ReqsA", "C12HdrFocus", "C12FocusShells", "C12NoServerFilter", "PlansHdrFocus"),
-            (0.25, "C12ReqsA", "C12RuleFocus", "C12FocusShells", "C12NoServerFilter", "PlansRuleFocus"))):
+            (0.35, "C12SimReqs", "C12SimTemplates", "C12SimShells", "C12SimServerFilters", "PlansC12"),
+            (0.2, "C12ReqsA", "C12HdrFocus", "C12FocusShells", "C12NoServerFilter", "PlansHdrFocus"),
+            (0.2, "C12ReqsA", "C12RuleFocus", "C12FocusShells", "C12NoServerFilter", "PlansRuleFocus"),
+            (0.25, "C05FocusReqs", "C12FilterFocus", "C05FocusShells", "C12SimServerFilters", "PlansFilterFocus"))):
         behs += ctx.tlc_simulate("HttpRouter_Gen", R.gen_cfg(reqs, nreq, True, templates, shells, sfs, plans),
                                  num=int(nb * share), depth=depth, timeout=1200, seed=ctx.seed * 10 + k)
     behs = [b for b in behs if b and b[0].get("a") == "cfg" and len(b) > 1]
